@@ -17,6 +17,9 @@ use std::io;
 use std::sync::Mutex;
 
 use futures_util::future::Either;
+#[cfg(feature = "verif-hooks")]
+use crate::zonetree::verif_sync::RwLock;
+#[cfg(not(feature = "verif-hooks"))]
 use parking_lot::RwLock;
 use tokio::sync::OwnedMutexGuard;
 use tracing::{trace, warn};
